@@ -47,7 +47,57 @@ def project_list(tier):
     return out
 
 
+def _run_probe(spec, prefix):
+    """Lock contention probe. Once per execution, at any quiescent point of the build, a
+    transaction that changes nothing takes the database session and keeps it across the next
+    events, as the watcher's transactions do in the watch phase (they span a reporter round trip).
+    Requests and dispatch decisions that arrive meanwhile queue on the session lock in arrival
+    order and run back to back when it is released (released last by default). A dispatch decision
+    must still be taken on cached attributes that agree with their definitions: that is what
+    keeping the metadata passes and the selection in ONE transaction buys."""
+    from ..dirx import Obs
+    from ..harness import Deadlock, EnvEvent, Horizon, PrefixChooser, Sim
+
+    fam, knobs = spec["fams"][0]
+    w = fresh_world(getattr(projects, fam)(**knobs), "c10p")
+    state = {"held": False}
+
+    def env(sim):
+        if state["held"] or sim.handler is None or len(sim.running) == 0:
+            return []
+
+        def fn(s):
+            state["held"] = True
+            s.flags.add("probe")
+
+            async def holder():
+                async with s.db:
+                    await s.gate("probe", "release the session")
+
+            s.loop.create_task(holder())
+        return [EnvEvent("probe: a transaction holds the session", fn)]
+
+    cfg = dict(spec["cfg"])
+    sim = Sim(w, env_events=env, horizon=3000, monitors=[monitors.install], **cfg)
+    sim.start()
+    fault = None
+    try:
+        try:
+            sim.run(PrefixChooser(prefix))
+        except Deadlock as exc:
+            fault = ("deadlock", str(exc))
+        except Horizon as exc:
+            fault = ("horizon", str(exc))
+        obs = Obs(sim, fault)
+    finally:
+        sim.close()
+        w.destroy()
+    return obs
+
+
 def _run(spec, prefix):
+    if spec.get("probe"):
+        return _run_probe(spec, prefix)
     fams, cfg = spec["fams"], dict(spec["cfg"])
     cfg["monitors"] = [monitors.install]
     fam, knobs = fams[0]
@@ -66,6 +116,14 @@ def _run(spec, prefix):
 def jobs(tier, seed):
     bound = 1 if tier == "quick" else 2
     out = []
+    # lock contention probe on two base schedules
+    for policy in ("thread", "fifo"):
+        for lead in (0, 1, 2, 3):
+            spec = {"name": f"probe:holdlate{lead}/{policy}", "fams": [("f_holdlate", {"lead": lead})],
+                    "cfg": {"njob": 2, "policy": policy}, "probe": True, "bound": 2}
+            obs = _run(spec, [])
+            for r in split_roots(obs.points, 2):
+                out.append({**spec, **r})
     for name, fams, cfg in project_list(tier):
         spec = {"name": name, "fams": fams, "cfg": cfg, "bound": bound}
         if tier == "quick":
